@@ -510,7 +510,7 @@ def refines_build(seed, tier):
     elif fam == "variable_free":
         # constraints whose coefficients cancelled: 0 <= c holds everywhere (c >= 0) or nowhere (c < 0)
         taut, contra = g.PT({}, float(r.choice([0, 1, 2]))), g.PT({}, -float(r.choice([1, 2])))
-        shape = r.choice(["taut_right", "taut_both", "taut_left", "contra_left", "contra_right", "only_taut"])
+        shape = r.choice(["taut_right", "taut_both", "taut_left", "contra_left", "contra_right", "only_taut", "contra_then_taut_left", "contra_then_taut_right"])
         if shape == "taut_right":
             left, right = base, [taut] + ([base[0].copy()] if r.random() < 0.5 else [])
         elif shape == "taut_both":
@@ -521,6 +521,11 @@ def refines_build(seed, tier):
             left, right = [contra] + base, [g.term(names, 1, 2)]
         elif shape == "contra_right":
             left, right = base, [contra] + base[:1]
+        elif shape == "contra_then_taut_left":
+            # several constraints without variables: one that fails followed by one that holds
+            left, right = [contra] + base + [taut], [g.term(names, 1, 2)]
+        elif shape == "contra_then_taut_right":
+            left, right = base, [contra] + base[:1] + [taut]
         else:
             left, right = ([taut] if r.random() < 0.5 else []), [taut.copy()]
         expect = None
@@ -564,7 +569,7 @@ def simplify_build(seed, tier):
     g = Gen(seed)
     r = g.r
     names = ["x", "y", "z", "u", "v"][: r.randint(1, 5)]
-    fam = r.choice(["random", "duplicates", "scaled", "combination", "via_context", "tight", "infeasible", "shared_with_context"])
+    fam = r.choice(["random", "duplicates", "scaled", "combination", "via_context", "tight", "infeasible", "shared_with_context", "variable_free"])
     base = [g.term(names, 1, 3) for _ in range(r.randint(1, 4))]
     ctx = []
     if fam == "duplicates":
@@ -591,6 +596,17 @@ def simplify_build(seed, tier):
     if r.random() < 0.3 and not ctx:
         ctx = [g.term(names, 1, 2)]
     r.shuffle(base)
+    if fam == "variable_free":
+        # constraints whose coefficients cancelled (0 <= c), one or two of them, failing and holding ones in either order,
+        # in the list or in the context
+        extra = r.choice([[1.0], [-1.0], [-1.0, 2.0], [2.0, -1.0], [0.0, 3.0]])
+        where = r.choice(["list", "list", "context"])
+        for c in extra:
+            if where == "list":
+                base.insert(r.randrange(len(base) + 1), g.PT({}, c))
+            else:
+                ctx = list(ctx)
+                ctx.insert(r.randrange(len(ctx) + 1), g.PT({}, c))
     if fam == "shared_with_context":
         # a term of the list that also is, verbatim, a term of the context (simplify removes it first), in any position
         ctx = [base[r.randrange(len(base))].copy()] + ([g.term(names, 1, 2)] if r.random() < 0.3 else [])
@@ -679,6 +695,12 @@ def merge_build(seed, tier):
             k0 = r.choice(sorted(t.variables, key=str))
             other = g.PT({k: (v * r.choice([-1.5, 2.0, 0.5, -1.0]) if k == k0 else v) for k, v in t.variables.items()}, t.constant)
             c2 = type(c2)(c2.a, c2.g | g.PTL([other]), c2.inputvars, c2.outputvars, simplify=False)
+    if shared_in and r.random() < 0.25:
+        # an assumption stated twice in one operand (assumptions are stored as given) and once in the other operand, which
+        # has at most one more: unions that count elements instead of comparing them go wrong here
+        t = g.bounds("i0", None, float(r.randint(1, 5)))[0]
+        c1 = type(c1)(g.PTL([x.copy() for x in c1.a.terms[:1]] + [t.copy(), t.copy()]), c1.g, c1.inputvars, c1.outputvars, simplify=False)
+        c2 = type(c2)(g.PTL([t.copy()] + [x.copy() for x in c2.a.terms[:1]]), c2.g, c2.inputvars, c2.outputvars, simplify=False)
     return {"op": "merge", "c1": contract_data(c1), "c2": contract_data(c2), "swap": r.random() < 0.5}
 
 
@@ -733,9 +755,9 @@ RULES = {
     "compose_case": "random pairs of polyhedral contracts over the wirings %s, vars_to_keep subsets of the connected outputs, simplify on/off, tactics_order from %s; soundness / interface / forgotten guarantees decided by z3 over the box with the property's tolerances; non-trivial = compose returned a contract with at least one term" % (WIRINGS, ORDERS),
     "quotient_case": "dividends built as C1 composed with a hidden partner (3/4) or random (1/4), additional_inputs subsets, simplify on/off, tactic orders; quotient soundness decided by z3; non-trivial = quotient returned with at least one term",
     "elim_case": "1-4 terms over 2-6 variables, 1-3 eliminated variables, contexts: random / chains / two-sided bounds / wrong-direction bounds; refine or relax, simplify on/off, singleton and mixed tactic orders; implication decided by z3; non-trivial = result differs from the input list",
-    "refines_case": "families self, sublist, weakening, positive combinations, duplicates, equal bound, separated, unrelated, unbounded, empty left, empty right over 1-4 variables with small-integer/dyadic data; exact containment and beyond-tolerance violation both decided by z3",
-    "simplify_case": "up to 6 terms over up to 5 variables with planted duplicates, scalings, positive combinations, context-implied terms, terms shared verbatim with the context, nearly tight terms, infeasible systems; selection, equivalence and irredundancy-with-margin decided by z3",
-    "merge_case": "pairs with shared inputs / shared outputs / disjoint interfaces, with duplicated guarantees across the two; exactness decided by z3 in both directions, both call orders",
+    "refines_case": "families self, sublist, weakening, positive combinations, duplicates, equal bound, separated, unrelated, unbounded, empty left, empty right, constraints without variables (one or two, failing and holding ones in either order) over 1-4 variables with small-integer/dyadic data; exact containment and beyond-tolerance violation both decided by z3",
+    "simplify_case": "up to 6 terms over up to 5 variables with planted duplicates, scalings, positive combinations, context-implied terms, terms shared verbatim with the context, nearly tight terms, infeasible systems, constraints without variables in the list or the context; selection, equivalence and irredundancy-with-margin decided by z3",
+    "merge_case": "pairs with shared inputs / shared outputs / disjoint interfaces, with duplicated guarantees across the two, an assumption stated twice in one operand; exactness decided by z3 in both directions, both call orders",
 }
 
 
